@@ -82,6 +82,8 @@ def run(ctx):
                 "labels that were laid out before / presented permuted; distinct by action sequence and label sets")
     ctx.assumptions += ["labels sharing a data position share a width (the property's proviso); results are compared as the multiset "
                         "(idealPos, width, layer, position)"]
+    ctx.model("Engine", "NegEngine_cachedmeasure.cfg", workers=2, expect_violation="Pure",
+              label="negative self-test: something derived from a label's old width or position and kept across layouts makes a layout after re-measuring impure")
     ctx.model("Engine", "NegEngine_nostubremoval.cfg", workers=2, expect_violation="Pure",
               label="negative self-test: without stub removal a second compute is not pure")
     maxlen = 4 if quick else 5
@@ -128,7 +130,7 @@ def replay(path):
     d = json.load(open(path))
     rec = d["replay"]["record"]
     acts = [act(e) for e in rec["ev"]]
-    out = core.run_driver("d_engine.py", stdin_obj={"histories": [acts], "sets": rec["sets"]})
+    out = core.run_driver("d_engine.py", stdin_obj={"histories": [acts], "sets": rec["sets"], "sets2": rec.get("sets2")})
     fails, _ = core.validate_records("EngineTrace", "EngineTrace.cfg", [{"ev": r["ev"]} for r in out["records"]], expect="init")
     for idx, inv in fails:
         print("VIOLATION property=C06 replay=%s" % path)
